@@ -53,6 +53,9 @@ PeekAllT      == [k |-> "peekall"]
 PopAllT       == [k |-> "popall"]
 \* PEEK[a..b]; ha/hb say whether the bound is written
 PeekSl(ha, a, hb, b) == [k |-> "peekslice", ha |-> ha, a |-> a, hb |-> hb, b |-> b]
+\* #t = e : matching is that of e; which pair receives the tag is pinned by no statement
+\* (compared between execution modes, never against this reference)
+Tag(t, e)     == [k |-> "tag", t |-> t, e |-> e]
 
 Rule(mod, body) == [mod |-> mod, body |-> body]
 
@@ -214,6 +217,7 @@ Eval(g, e, inp, st) ==
                           IN IF MatchesAt(inp, pos, s) THEN OkR(pos + Len(s), <<>>, <<>>) ELSE FailR
     [] e.k = "peekslice" -> LET s == Concat(SliceOf(stk, e.ha, e.a, e.hb, e.b))
                             IN Here(MatchesAt(inp, pos, s), Len(s))
+    [] e.k = "tag"   -> Eval(g, e.e, inp, st)
 
 \* What parse(rule, input, start_pos = k) returns
 Outcome(g, rule, inp, k) ==
